@@ -253,6 +253,8 @@ pub fn dec2string(d: &BigDecimal) -> String {
     if d.fractional_digit_count() <= 0 {
         format!("{}.0", d.with_scale(0))
     } else {
-        d.to_string()
+        // NB: `to_string` would switch to the scientific notation for small numbers (e.g. 1E-7),
+        // which is not in the lexical space of xsd:decimal
+        d.to_plain_string()
     }
 }
